@@ -113,19 +113,21 @@ def run_case(nvoters, F, seed, steps=120):
             elif r < 0.76:
                 f = rng.choice(ids[1:])
                 cut.add(f)
+                if rng.random() < 0.5:
+                    cut.update(ids[1:])       # cut off from everybody
                 cl.net.chan[(f, 'a')] = []
             elif r < 0.82:
                 f = rng.choice(ids[1:])
                 cut.discard(f)
             elif r < 0.87:
-                f = rng.choice(ids[1:])
+                f = rng.choice(sorted(cut)) if cut and rng.random() < 0.7 else rng.choice(ids[1:])
                 for act in (('Break', 'a', f), ('Notice', 'a', f)):
                     if cl.applicable(act):
                         cl.step(act)
                 obs('Net')
             elif r < 0.93:
                 # the link comes back (for a cut-off follower: half-open - nothing it says gets through)
-                f = rng.choice(ids[1:])
+                f = rng.choice(sorted(cut)) if cut and rng.random() < 0.7 else rng.choice(ids[1:])
                 for act in (('Connect', 'a', f), ('Deliver', 'a', f)):
                     if cl.applicable(act):
                         cl.step(act)
